@@ -843,15 +843,18 @@ class VectorizedEagleStrategy(
           jax.random.uniform(pull_seed, shape=scaled_pulls.shape)
           * scaled_pulls_pos
       )
-      pull_weight_matrix = pull_rand_matrix / jnp.sum(
-          pull_rand_matrix, axis=1, keepdims=True
+      # A row without any positive pull sums to 0: its weights are 0, not NaN.
+      pull_weight_matrix = jnp.nan_to_num(
+          pull_rand_matrix / jnp.sum(pull_rand_matrix, axis=1, keepdims=True),
+          nan=0.0,
       )
       push_rand_matrix = (
           jax.random.uniform(push_seed, shape=scaled_pulls.shape)
           * scaled_pulls_pos
       )
-      push_weight_matrix = push_rand_matrix / jnp.sum(
-          push_rand_matrix, axis=1, keepdims=True
+      push_weight_matrix = jnp.nan_to_num(
+          push_rand_matrix / jnp.sum(push_rand_matrix, axis=1, keepdims=True),
+          nan=0.0,
       )
       # Normalize pulls/pulls by the weight matrices and multiply by
       # normalization_scale.
